@@ -1,9 +1,9 @@
 SPECIFICATION SpecEnum
 CONSTANTS
-  Layouts <- LayoutsPlain
+  Layouts <- LayoutsFF4
   N = 4
-  Sizes = {2, 40000}
-  LinkOpts <- LO_enum4
+  Sizes = {2}
+  LinkOpts <- LO_ff4
   MaxCopies = 0
 INVARIANT CaseDump
 CHECK_DEADLOCK FALSE
